@@ -140,7 +140,7 @@ def build_harness():
 
 def regen(core_out, prof_out):
     os.makedirs(DUMP, exist_ok=True)
-    for name, args in (('std.txt', ['dump-std']), ('norm.txt', ['dump-norm']), ('hascompat.txt', ['rle', 'has_compat'])):
+    for name, args in (('std.txt', ['dump-std']), ('norm.txt', ['dump-norm']), ('hascompat.txt', ['rle', 'has_compat']), ('cls.txt', ['rle', 'cls_id', 'cls_ff'])):
         r = sh([HARNESS] + args)
         with open(os.path.join(DUMP, name), 'w') as f:
             f.write(r.stdout)
